@@ -20,11 +20,13 @@ _TXT = st.one_of(_WORD, _WORD, st.tuples(_WORD, _WORD).map(" ".join),
                  _WORD.map(lambda w: 'say "%s"' % w), _WORD.map(lambda w: "[%s]" % w),
                  _WORD.map(lambda w: "%s's" % w), _WORD.map(lambda w: "ä" + w),
                  _WORD.map(lambda w: "<%s&>" % w))
-_NAME = st.one_of(st.sampled_from(["a", "b", "c", "a-2", "b-2", "a-3"]), _WORD)
+_NAME = st.one_of(st.sampled_from(["a", "a", "a", "a-2", "a-2", "a-3", "b", "b-2", "c"]),
+                  st.sampled_from(["a", "a", "a-2"]), _WORD)
 
 VALUE_TEXT = {
     "string": _TXT, "text": _TXT, "person": _TXT, "url": _WORD.map(lambda w: "http://%s.org/x?a=1" % w),
-    "int": st.integers(-999, 999).map(str), "float": st.sampled_from(["1.5", "-2.25", "3.0", "1e-3"]),
+    "int": st.one_of(st.integers(-999, 999), st.sampled_from([0, 0, 1])).map(str),
+    "float": st.sampled_from(["1.5", "-2.25", "3.0", "1e-3", "0.0", "0.0"]),
     "boolean": st.sampled_from(["true", "false", "True", "False"]),
     "date": st.dates().filter(lambda d: d.year >= 1000).map(lambda d: d.isoformat()),
     "time": st.times().map(lambda t: t.replace(microsecond=0).isoformat()),
@@ -163,9 +165,27 @@ def emit_xml(doc):
     return "\n".join(out) + "\n"
 
 
-def to_dict(doc):
+def native(text, dtype):
+    """Value-level scalars may be native in the dictionary forms."""
+    try:
+        if dtype == "int":
+            return int(text)
+        if dtype == "float":
+            return float(text)
+        if dtype == "boolean":
+            return text.lower() == "true"
+    except ValueError:
+        pass
+    return text
+
+
+def to_dict(doc, native_values=False):
     def val(v):
         d = {"value": v["text"]}
+        if native_values and v.get("_dtype"):
+            d["value"] = native(v["text"], v["_dtype"])
+        if native_values and v["uncertainty"] is not None:
+            v = dict(v, uncertainty=native(v["uncertainty"], "float"))
         if v["type"]:
             d[v["type_key"]] = v["type"]
         for k in ("unit", "uncertainty", "definition", "reference", "filename"):
@@ -188,7 +208,12 @@ def to_dict(doc):
                 d[k] = p[k]
         if p["dependency_value"] is not None:
             d[p["depval_key"]] = p["dependency_value"]
-        d["values"] = [val(v) for v in p["values"]]
+        dtype = None
+        for v in p["values"]:
+            if v["type"]:
+                dtype = v["type"]
+                break
+        d["values"] = [val(dict(v, _dtype=dtype)) for v in p["values"]]
         return d
 
     def sec(s):
@@ -214,12 +239,12 @@ def to_dict(doc):
     return {"Document": d, "odml-version": "1"}
 
 
-def emit_json(doc):
-    return json.dumps(to_dict(doc), indent=2)
+def emit_json(doc, native_values=False):
+    return json.dumps(to_dict(doc, native_values), indent=2)
 
 
-def emit_yaml(doc):
-    return yaml.safe_dump(to_dict(doc), default_flow_style=False)
+def emit_yaml(doc, native_values=False):
+    return yaml.safe_dump(to_dict(doc, native_values), default_flow_style=False)
 
 
 # ------------------------------------------------------------------------------------
